@@ -156,7 +156,7 @@ def hostile_manifests(sb, R, rng, tier):
                 # the recorded (hostile) manifest as the OLD manifest of a commit: the workspace has a file under the innocent key
                 os.makedirs(os.path.join(root, "data"), exist_ok=True)
                 open(os.path.join(root, "data", "innocent.txt"), "w").write("aaa")
-                for cmd in (["commit", "--copy"], ["commit"]):
+                for cmd in (["commit"], ["commit", "--copy"]):      # link strategy first: it is the one that moves files
                     rc, so, se = proj.dud(cmd, cwd=root)
                     rcs.append((" ".join(cmd) + " (workspace present)", rc))
             after = sb.outside(proj)
